@@ -478,8 +478,16 @@ void vf_run(const uint8_t *data, size_t len)
         if (auto_pb && pred != P_NONE && A.live() < maxlive) {
             // by construction: push_back right after every structural op
             Pred p3;
-            apply(A, cx, PUSH_B, a, (uint8_t)(b * 7 + 1), K, maxlive, twin ? &oa : nullptr, &p3);
-            if (twin) { Obs o1, o2; apply(B, cx, PUSH_B, a, (uint8_t)(b * 7 + 1), K, maxlive, &o2, &p3); }
+            if (!twin) apply(A, cx, PUSH_B, a, (uint8_t)(b * 7 + 1), K, maxlive, nullptr, &p3);
+            else {
+                Obs o1, o2;
+                bool k1 = model_ok([&] { apply(A, cx, PUSH_B, a, (uint8_t)(b * 7 + 1), K, maxlive, &o1, &p3); });
+                bool k2 = model_ok([&] { apply(B, cx, PUSH_B, a, (uint8_t)(b * 7 + 1), K, maxlive, &o2, &p3); });
+                CHECK(k1 == k2, "C15.slist.reuse", "after clear the list %s the list model where a freshly initialised one %s (push_back)",
+                      k1 ? "satisfies" : "violates", k2 ? "satisfies it" : "does not");
+                if (!k1) throw Abandon{"C13.(cleared list and fresh twin alike)"};
+                CHECK(o1 == o2, "C15.slist.reuse", "after clear the list behaves differently from a fresh one (push_back)");
+            }
             cnt_dyn(std::string("class.push_back_after.") + PREDN[pred]);
             cx.nt_pushb_after = true;
             last_pred = P_NONE;
@@ -534,6 +542,8 @@ bool vf_scope(const std::string &name, Scope &s)
     bool c15 = g_prop == "C15";
     s.header = {(uint8_t)(nl - 1), (uint8_t)ki, (uint8_t)mi, 0, 0};
     int K = KEYS[ki % 5];
+    int npos = (int)std::min<size_t>(MAXLIVE[mi % 8], 8);
+    if (!strncmp(mode, "seq", 3)) npos = std::min(npos, std::max(2, atoi(mode + 3)));
     for (int op = 0; op < NOPS; op++) {
         if (op == AUDIT) continue;
         if (c15 && (op == CLEAR || op == FOREACH_STOP)) continue;
@@ -542,8 +552,10 @@ bool vf_scope(const std::string &name, Scope &s)
             std::vector<int> bs;
             switch (op) {
             case PUSH_F: case PUSH_B: for (int k = 0; k < K; k++) bs.push_back(k); break;
-            case INSERT_AFTER: for (int pos = 0; pos < 3; pos++) bs.push_back((pos << 3) | 0); break;
-            case ERASE_AFTER: for (int pos = 0; pos < 3; pos++) bs.push_back(pos); break;
+            // every position relative to the tail: positions are taken modulo the list's length, so up to the scope's
+            // maximum length (an unpruned sequence of depth d cannot build more than d elements)
+            case INSERT_AFTER: for (int pos = 0; pos < npos; pos++) bs.push_back((pos << 3) | 0); break;
+            case ERASE_AFTER: for (int pos = 0; pos < npos - 1 || pos < 1; pos++) bs.push_back(pos); break;
             case SORT: bs = {0, 1}; break;
             case CONCAT: case SWAP: for (int k = 0; k < nl - 1; k++) bs.push_back(k); break;
             case FOREACH_STOP: bs = {0, 4 | 1}; break;
